@@ -44,6 +44,7 @@ pub fn gen_default(max_ops: usize, faults: bool) -> GenCfg {
         fixed_cap: None,
         fixed_term: None,
         flush_weight: 2,
+        clone_drop_weight: 0,
     }
 }
 
@@ -262,6 +263,7 @@ fn client_spy(case: &WriterCase) -> Vec<oracle::OpTrace> {
                     result,
                 });
             }
+            WOp::CloneDrop => continue,
             WOp::Flush => {
                 let r = util::catch(|| client.flush());
                 let attempts = att(seams::drain_rx(&rx));
@@ -400,7 +402,8 @@ fn queue_client_spy(case: &WriterCase, w: std::time::Duration) -> Vec<oracle::Op
         done: done.clone(),
         released: ReleaseSignal(released.clone()),
     };
-    let client = StatsdClient::from_sink("", QueuingMetricSink::from(rec));
+    let q = QueuingMetricSink::from(rec);
+    let client = StatsdClient::from_sink("", q.clone());
     let att = |v: Vec<Vec<u8>>| -> Vec<Attempt> { v.into_iter().map(|bytes| Attempt { bytes, err: None }).collect() };
     let mut out = Vec::new();
     let mut n = 0usize;
@@ -434,6 +437,20 @@ fn queue_client_spy(case: &WriterCase, w: std::time::Duration) -> Vec<oracle::Op
                     result,
                 });
             }
+            WOp::CloneDrop => {
+                // a clone of the queuing handle comes and goes: the wrapped buffered sink must not
+                // be touched (in particular not flushed). Recorded as an emit of nothing that makes
+                // no write; a datagram appearing here is attributed to the next op and judged there.
+                let r = util::catch(|| drop(q.clone()));
+                if let Err(p) = r {
+                    out.push(OpTrace {
+                        kind: OpKind::Flush,
+                        attempts: vec![],
+                        result: OpResult::Panicked(p),
+                    });
+                }
+                std::thread::sleep(std::time::Duration::from_micros(50));
+            }
             WOp::Flush => {
                 let r = util::catch(|| client.flush());
                 out.push(OpTrace {
@@ -455,7 +472,10 @@ fn queue_client_spy(case: &WriterCase, w: std::time::Duration) -> Vec<oracle::Op
             return out;
         }
     }
-    let r = util::catch(move || drop(client));
+    let r = util::catch(move || {
+        drop(client);
+        drop(q);
+    });
     let deadline = Instant::now() + w;
     while released.load(Ordering::SeqCst) == 0 && Instant::now() < deadline {
         std::thread::yield_now();
